@@ -20,6 +20,9 @@ IS_NONE = 'core::option::Option::is_none'
 IS_OK = 'core::result::Result::is_ok'
 IS_ERR = 'core::result::Result::is_err'
 RETURNS_CLOSURE_RESULT = ('std::thread::local::LocalKey::with', 'std::thread::local::LocalKey::try_with')
+# Option combinators: the closure runs only when the receiver is Some; the call's value is the closure's (or the default)
+OPTION_COMBINATORS = {'core::option::Option::map_or': 'default-arg1', 'core::option::Option::is_some_and': 'default-0',
+                      'core::option::Option::is_none_or': 'default-1'}
 
 
 def config_field_of(place):
@@ -282,7 +285,19 @@ class Spec:
                 sub = Spec(self.prog, cb, self.fields, upvar_env=uenv, oracles=self.oracles, _depth=self.depth + 1, weigher=self.weigher)
                 self._out_memo[key] = sub.outcomes()
             outs = []
-            returns = callee_name(t) in RETURNS_CLOSURE_RESULT
+            cn_ = callee_name(t)
+            returns = cn_ in RETURNS_CLOSURE_RESULT
+            comb = OPTION_COMBINATORS.get(cn_)
+            if comb is not None and t['args']:
+                recv = self.eval_operand(t['args'][0], env)
+                if recv == 0:
+                    # receiver is None: the closure does not run, the value is the default
+                    dv = 0 if comb == 'default-0' else 1 if comb == 'default-1' else self.eval_operand(t['args'][1], env)
+                    return [(dv, {}, None)]
+                if recv == 1:
+                    returns = True
+                else:
+                    returns = False
             for (ret, uvs, vec) in self._out_memo[key]:
                 w = {}
                 uvd = dict(uvs)
